@@ -477,7 +477,8 @@ func initRollingFileLogger(
 			return err
 		}
 	}
-	return nil
+	// Start the underlying logger (launches the worker in async mode).
+	return f.logger.Start()
 }
 
 // Append forwards the event to the underlying logger.
@@ -490,8 +491,11 @@ func (f *RollingFileLogger) Write(b []byte) {
 	f.logger.Write(b)
 }
 
-// Stop stops all appenders.
+// Stop flushes the underlying logger and stops all appenders.
 func (f *RollingFileLogger) Stop() {
+	if f.logger != nil {
+		f.logger.Stop()
+	}
 	for _, a := range f.appenders {
 		a.Stop()
 	}
